@@ -36,6 +36,8 @@ type doc struct {
 	// light: only the Get of the listed objects is explored (placement sweeps:
 	// many near-identical documents)
 	light bool
+	// seqOnly: a damaged file; only SequentialScan+MakeReader is explored
+	seqOnly bool
 }
 
 // memSink is an in-memory sink; the seekable variant lets the Writer fill
@@ -757,4 +759,40 @@ func indirectParmDocs() []*doc {
 	t.xref(16, "/Root 1 0 R", []int{1, 2, 3, 4, 5, 6, 7, 8, 9, 10, 11, 12, 13, 14, 15}, true)
 	return []*doc{{name: "hand-indirect-filter-parameters", class: "hand:indirect-Filter-DecodeParms-Length",
 		data: append([]byte(nil), t.buf.Bytes()...), refs: R(3, 5, 8, 13, 14)}}
+}
+
+// damagedDocs: the multi-revision documents with one structural keyword
+// overwritten (same length), each keyword of each revision in turn - the files
+// SequentialScan+MakeReader exists for.  The fault-free result on the damaged
+// file is the reference.
+func damagedDocs(base []*doc) []*doc {
+	var res []*doc
+	for _, b := range base {
+		if b.name != "hand-two-infos" && b.name != "hand-three-revisions" && b.name != "hand-prev-indirectid" && b.name != "hand-xrefstream" {
+			continue
+		}
+		for _, kw := range []string{"\nxref\n", "\ntrailer\n", "\nstartxref\n", "%%EOF", "/XRef"} {
+			from := 0
+			occ := 0
+			for {
+				i := bytes.Index(b.data[from:], []byte(kw))
+				if i < 0 {
+					break
+				}
+				i += from
+				from = i + 1
+				occ++
+				data := append([]byte(nil), b.data...)
+				for j := i; j < i+len(kw); j++ {
+					if data[j] != '\n' {
+						data[j] = 'q'
+					}
+				}
+				res = append(res, &doc{name: fmt.Sprintf("%s-damaged-%s-%d", b.name, strings.Trim(kw, "\n%/"), occ),
+					class: "damaged:" + strings.TrimPrefix(b.class, "hand:") + ":" + strings.Trim(kw, "\n") + " overwritten",
+					data: data, refs: b.refs, seqOnly: true})
+			}
+		}
+	}
+	return res
 }
